@@ -799,7 +799,7 @@ func run(c *drv.Ctx) error {
 				w.Violation(idx, "the goroutines of the request manager never parked (10 s, twice): livelock", "reqlife-never-parked")
 			}
 			if br.goViol != "" {
-				w.Violation(idx, br.goViol, "reqlife-backlog-hang")
+				w.Violation(idx, br.goViol, map[bool]string{true: "reqlife-resume-lost", false: "reqlife-backlog-hang"}[rc.Backlog.Cause == "resume"])
 			}
 			continue
 		}
